@@ -198,3 +198,17 @@ PROPS["C07"] = {
               "text": "Generated-input search: random chains of 1..8 steps (nested Dict/Array/Object/Func to depth 2) over exactly the method families the statement lists, on bare/context/timestamp-hook/level-filtered/Nop loggers, finalised by Msg or Send, are measured with testing.AllocsPerRun(100) in the JSON and the binary_log build; additionally every family alone x 12 values x 6 logger kinds. Zero allocations are required, and zero writes for filtered loggers. Held on everything explored.",
               "note": "Measurement trusts the Go runtime's allocation counter. Arr().Dict(d) (not in the statement's method list) is not generated."},
 }
+
+PROPS["C16"] = {
+    "jobs": [
+        {"name": "rapid", "pkg": "./c16", "run": "^TestRapidEvents$", "rapid": T(6000, 40000), "shards": T(1, 8), "replay": "^TestReplay$"},
+        {"name": "directed", "pkg": "./c16", "run": "^(TestDirected|TestRegress)$"},
+    ],
+    "assumptions": LP_ASSUME + ["NoColor, default formatters; PartsOrder is a permutation of a subset of the four standard parts",
+                                "field names configured through the globals are valid UTF-8 (otherwise no decoded key can equal them)",
+                                "names and the message are printed verbatim, so 'one line' is checked as: exactly the reference text followed by one newline",
+                                "the parts prefix is compared exactly only when every configured part is present with its usual type (placeholders for absent parts are unspecified)"],
+    "claim": {"ref": "DESIGN.md §5 C16", "technique": "property-based testing (rapid): events produced by the JSON logger from generated programs x generated ConsoleWriter options; oracle: reference renderer (fields section always, parts prefix for well-typed events), determinism",
+              "text": "Generated-input search: each event emitted for a generated logging program (every value type, nesting, duplicate keys, keys equal to part names, the empty key) is rendered under generated PartsOrder/PartsExclude/FieldsOrder/FieldsExclude/TimeFormat/TimeLocation/TimeFieldFormat; Write must return (len, nil); the fields section must equal the reference (error first then lexical, or FieldsOrder first then lexical with the error field once anywhere; strings verbatim or strconv.Quote'd by the stated byte classes; numbers with their exact digits; other values as encoding/json's compact form of the decoded value); the parts prefix must equal the reference when all configured parts are well-typed; rendering twice must give identical bytes. Held on everything explored.",
+              "note": "Trusts encoding/json (decoding and compact marshalling), strconv.Quote, time. The share of fully checked events is reported in the evidence notes."},
+}
